@@ -27,6 +27,13 @@ type CodeGenContext struct {
 	VS               *variantstack.VariantStack
 	BitMode          cpu.BitMode
 	BitModeChanges   []BitModeChange // [BITS n] が現れた位置 (ocode の番号) とそのモード
+	OriginChanges    []OriginChange  // ORG が現れた位置 (ocode の番号) とそのアドレス
+}
+
+// OriginChange は、Index 番目の ocode の先頭アドレスが Origin になることを表します (ORG)。
+type OriginChange struct {
+	Index  int
+	Origin uint64
 }
 
 // BitModeChange は、Index 番目以降の ocode に適用されるビットモードの切り替えを表します。
